@@ -41,6 +41,7 @@ type l3Driver struct {
 	govProposals   int
 	jumped         bool // the one long advance across an expiry has been made
 	madeValidator  map[int]bool
+	cursorDone     bool
 	params0        string // node parameters at the start (to label applied governance changes)
 	timeJump bool        // the next block's header time is the wall clock
 }
@@ -364,7 +365,7 @@ func (d *l3Driver) setup() {
 func (d *l3Driver) genStep(t *rapid.T) *Action {
 	s, cfg := d.s, d.cfg
 	var a *Action
-	switch rapid.IntRange(0, 24).Draw(t, "step") {
+	switch rapid.IntRange(0, 25).Draw(t, "step") {
 	case 0, 1, 2:
 		a = cfg.GenStoreNew(t, s)
 		if a != nil {
@@ -423,6 +424,8 @@ func (d *l3Driver) genStep(t *rapid.T) *Action {
 			a.Amount = rapid.SampledFrom([]int64{1, 1000, 100_000_000}).Draw(t, "selfBond")
 			d.labels["create-validator"]++
 		}
+	case 24:
+		a = d.cursorArm(t)
 	case 21:
 		a = d.genSimulateOnly(t)
 	case 22:
@@ -484,6 +487,63 @@ func (d *l3Driver) residueArm(t *rapid.T) *Action {
 	y := NewAction(rapid.SampledFrom([]string{"delegate", "undelegate"}).Draw(t, "thirdOp"), p)
 	y.Target, y.Amount = v, int64(rapid.IntRange(1, 900).Draw(t, "thirdAmount"))
 	return y
+}
+
+// cursorArm: the super-node round-robin cursor ends up equal to the number of super nodes (two super
+// nodes, one selection, one of them loses the role), a Store that reads the cursor fails, the set
+// grows back, one replica may be restarted, and the next Store selects again.
+func (d *l3Driver) cursorArm(t *rapid.T) *Action {
+	s := d.s
+	if d.cursorDone {
+		return nil
+	}
+	d.cursorDone = true
+	v := 0
+	for _, n := range []int{3, 4} {
+		x := NewAction("delegate", n)
+		x.Target, x.Amount = v, 250_000_000
+		d.apply(x)
+	}
+	supers := 0
+	for _, n := range []int{3, 4} {
+		if nd, ok := s.Last.Nodes[s.bech(n)]; ok && nd.Role == nodetypes.NODE_SUPER {
+			supers++
+		}
+	}
+	if supers < 2 {
+		return nil
+	}
+	d.labels["cursor-arm"]++
+	one := func(label string) *Action {
+		a := d.cfg.GenStoreNew(t, s)
+		if a != nil {
+			a.Replica, a.Size, a.Timeout = 1, 1000, 6
+		}
+		return a
+	}
+	if a := one("first"); a != nil {
+		d.apply(a) // one selection: the cursor moves on
+	}
+	// one super node leaves the set
+	u := NewAction("undelegate", 4)
+	u.Target, u.Amount = v, 250_000_000
+	d.apply(u)
+	// a Store that runs the selection and then fails (no provider can hold it)
+	if a := one("failing"); a != nil {
+		a.Size = 1 << 40
+		d.apply(a)
+	}
+	// the node comes back
+	b := NewAction("delegate", 4)
+	b.Target, b.Amount = v, 250_000_000
+	d.apply(b)
+	if d.prop == "C03" && !d.every && rapid.Bool().Draw(t, "cursorRestart") {
+		r := NewAction("restart", 0)
+		r.Target = 1
+		d.apply(r)
+		d.apply(adv1())
+	}
+	return one("after")
 }
 
 // sidRotationArm drives one of two did:sid identities towards a key rotation (MsgUpdate): the first
